@@ -38,6 +38,12 @@ class ME(NodeMixin):
     def __hash__(self):
         return 5
 
+    def __len__(self):
+        return 0
+
+    def __bool__(self):
+        return False
+
 
 CLS = {"mixin": M, "light": L, "mixin_eq": ME}
 
@@ -175,6 +181,51 @@ def c04_body(cfg):
                     g3 = idx_seq(nodes, util.commonancestors(nodes[i], nodes[j], nodes[k]))
                     if g3 != e3:
                         return {"why": "commonancestors(triple)", "pv": pv, "move": move, "nodes": [i, j, k], "got": g3, "exp": e3}
+    return True
+
+
+def c15_move_body(cfg):
+    """C15 over a history: walk(s, e), then one structural change anywhere in the forest, then walk(s, e) again -
+    the second result must be the unique path of the CURRENT tree (values are computed from the current links)."""
+    cls = CLS[cfg.get("cls", "mixin")]
+    n = nondet_int(2, cfg["N"], "n")
+    pv = pick_parent_vector(n, forest=True)
+    parent, children = model_from_pv(pv)
+    s = nondet_int(0, n - 1, "start")
+    e = nondet_int(0, n - 1, "end")
+    a = nondet_int(0, n - 1, "moved")
+    b = nondet_int(-1, n - 1, "new_parent")
+    move = ("parent", a, None if b < 0 else b)
+    with concrete_region():
+        out, np_, nc_ = F.apply_functional(parent, children, move, "light")
+        if out != "ok" or (np_, nc_) == (parent, children):
+            return True
+        nodes = [cls(i) for i in range(n)]
+        for i, p in enumerate(pv):
+            if p >= 0:
+                nodes[i].parent = nodes[p]
+        try:
+            Walker().walk(nodes[s], nodes[e])
+        except WalkError:
+            pass
+        nodes[a].parent = None if move[2] is None else nodes[move[2]]
+        nontrivial()
+        ps, pe = m_path(np_, s), m_path(np_, e)
+        try:
+            res = Walker().walk(nodes[s], nodes[e])
+        except WalkError:
+            res = "WalkError"
+        if ps[0] != pe[0]:
+            if res != "WalkError":
+                return {"why": "no WalkError after the trees were separated", "pv": pv, "move": move, "pair": [s, e]}
+            return True
+        if res == "WalkError":
+            return {"why": "WalkError although both nodes are now in one tree", "pv": pv, "move": move, "pair": [s, e]}
+        k = len(common_prefix([ps, pe]))
+        exp = [list(reversed(ps[k:])), ps[k - 1], pe[k:]]
+        got = [idx_seq(nodes, res[0]), index_of(nodes, res[1]), idx_seq(nodes, res[2])]
+        if got != exp:
+            return {"why": "walk after a mutation does not reflect the current links", "pv": pv, "move": move, "pair": [s, e], "got": got, "exp": exp}
     return True
 
 
